@@ -1,6 +1,8 @@
 import Uquic.Oracle.Frame
 import Uquic.Model.Crypto.KeyPhase
 import Uquic.Model.Crypto.PN
+import Uquic.Model.Crypto.PackGlue
+import Uquic.Spec.PNMon
 import Uquic.Spec.KeyPhaseMon
 import Uquic.Model.Crypto.Prim
 import Uquic.Generated.Handshake
@@ -179,6 +181,52 @@ def step (s : St) (op impl : String) : St × StepOut :=
      mk (s!"bit={b} gen={gen} len=16 ct={ctModel} " ++ fmtState a2)
        ([if rolled then "seal:roll" else "seal:same"] ++ (if a0.firstSentWithCurrentKey = invalidPN then ["seal:first-in-phase"] else []))
        fails)
+  | "pack" =>
+    -- pack <ep> <id> <path> <uquic> <pnlen> <pn> <src> <flag> <long> <hsdata>
+    if w.length < 11 then (s, { model := "skip" }) else
+    let id := (arg 2).toNat; let pnLen := (arg 5).toNat; let pn := arg 6; let src := (arg 7).toNat
+    if pnLen < 1 || pnLen > 4 || pn < 0 then (s, { model := "skip" }) else
+    match Uquic.Model.PackGlue.Path.ofString (w.getD 3 "") with
+    | none => (s, mk ("E:pack " ++ fmtState (s.a ep)) ["pack:bad-path"])
+    | some path =>
+      let v : Uquic.Model.PackGlue.Avail := { data := src % 2 == 1, ack := (src / 2) % 2 == 1, flag := (arg 8) % 2 == 1 }
+      let a0 := s.a ep
+      let (a2, out) := Uquic.Model.PackGlue.pack path v a0 s.env pn
+      let rolled := a2.keyPhase ≠ a0.keyPhase
+      let (fails, g) := localRollMon (s.g ep) implPhase
+      let pathTag := w.getD 3 "" ++ (if arg 4 % 2 == 1 then ":u" else "")
+      match out with
+      | none =>
+        -- the implementation may nevertheless have produced a packet: remember it for the deliveries
+        let produced := implHead ≠ "none" && (implField impl "gen=").isSome
+        let implGen := implInt impl "gen=" 0; let implBit := implInt impl "bit=" 0
+        let s := (s.setA ep a2).setG ep g
+        let s := if produced then
+          { s with gp := insert s.gp id { sender := ep, gen := implGen, pn := pn, bit := implBit, packed := true, pnLen := pnLen,
+                                          cidLen := if ep == 0 then 8 else 0, dataLen := (implInt impl "len=" 0).toNat } } else s
+        (s, mk ("none " ++ fmtState a2) [s!"pack:{pathTag}:none", if rolled then "pack:none-roll" else "pack:none-same"] fails)
+      | some q =>
+        let implGen := implInt impl "gen=" 0
+        let implBit := implInt impl "bit=" 0
+        let produced := (implField impl "gen=").isSome
+        let dataLen := (implInt impl "len=" 0).toNat
+        let cidLen := if ep == 0 then 8 else 0
+        let fails := fails ++
+          (if produced && implBit ≠ implGen % 2 then
+            [("wire_bit_matches_generation", "-", s!"{w.getD 3 ""}: short header key-phase bit {implBit} on a packet sealed with key generation {implGen}")] else []) ++
+          (if produced && (implInt impl "pn=" (-1) ≠ pn || implInt impl "pnlen=" 0 ≠ pnLen || implInt impl "popped=" 0 ≠ 1) then
+            [("packed_with_peeked_pn", "-", s!"peeked pn={pn} pnLen={pnLen}, packet reports {impl}")] else []) ++
+          (if produced && dataLen < 1 + cidLen + 4 + 16 then
+            [("protect_needs_sample", "-", s!"packet of {dataLen} bytes leaves no header-protection sample")] else [])
+        let g := if produced then
+          { g with sentInPhase := pn :: g.sentInPhase, monotoneSeal := g.monotoneSeal && decide (pn > g.lastSealed), lastSealed := pn } else g
+        let s := (s.setA ep a2).setG ep g
+        let info (gen bit : Int) : PktInfo :=
+          { sender := ep, gen := gen, pn := pn, bit := bit, packed := true, pnLen := pnLen, cidLen := cidLen, dataLen := dataLen }
+        let s := { s with mp := insert s.mp id (info q.gen q.bit) }
+        let s := if produced then { s with gp := insert s.gp id (info implGen implBit) } else s
+        (s, mk (s!"bit={q.bit} gen={q.gen} pn={pn} pnlen={pnLen} popped=1 len={dataLen} " ++ fmtState a2)
+              [s!"pack:{pathTag}", if rolled then "pack:roll" else "pack:same", s!"pack:pnlen{pnLen}"] fails)
   | "forge" =>
     let id := (arg 2).toNat; let gen := arg 3; let pn := arg 4
     if gen < 0 || gen > 1000 then (s, { model := "skip" }) else
@@ -187,16 +235,25 @@ def step (s : St) (op impl : String) : St × StepOut :=
   | "open" =>
     match lookup s.mp (arg 2).toNat, lookup s.gp (arg 2).toNat with
     | some p, some q => Id.run do
-      let t := arg 3; let kpflip := (arg 4) % 2; let pnd := arg 5; let bf := arg 6
-      let authentic := p.sender ≠ ep && kpflip == 0 && pnd == 0 && bf == 0
-      let kp := (p.bit + kpflip) % 2
+      if p.packed && p.sender == ep then return (s, { model := "skip" })
+      let t := arg 3; let kpflip := (arg 4) % 2; let bf := arg 6
+      -- a packet of the real packer: the packet number travels truncated and is decoded by the receiver;
+      -- tampering = the key-phase bit of the protected first byte, or a bit behind the sample
+      let pnd := if p.packed then 0 else arg 5
+      let mutated := if p.packed then bf > 0 && p.dataLen > 1 + p.cidLen + 20 else bf != 0
       let a0 := s.a ep
-      let (a, r, used) := a0.openU s.env t (p.pn + pnd) kp { gen := p.gen, authentic := authentic }
+      let mpn := if p.packed then Uquic.Model.PN.decodePN p.pnLen a0.decodeBase (p.pn % 2 ^ (8 * p.pnLen)) else p.pn + pnd
+      let authentic := p.sender ≠ ep && kpflip == 0 && pnd == 0 && !mutated && mpn == p.pn
+      let kp := (p.bit + kpflip) % 2
+      let (a, r, used) := a0.openU s.env t mpn kp { gen := p.gen, authentic := authentic }
       -- ghost / monitors
       let g := s.g ep
       let qkp := (q.bit + kpflip) % 2
       let pn := q.pn + pnd
       let ok := implHead == "ok"
+      -- untampered, and (real packer) the truncated packet number decodes at a receiver that has seen `highRcvd`
+      let decodable := !q.packed || Uquic.Spec.PNMon.inWindow q.pnLen q.pn g.highRcvd
+      let authentic := q.sender ≠ ep && kpflip == 0 && pnd == 0 && !mutated
       -- previous key dropped by now?
       let dropNow := match g.prevDropAt with | some d => decide (t > d) | none => false
       let g := if dropNow then { g with prevDropped := true, prevDropAt := none } else g
@@ -209,17 +266,23 @@ def step (s : St) (op impl : String) : St × StepOut :=
         fails := fails ++ [("tamper_rejected", "-", s!"id={arg 2} sender={q.sender} kpflip={kpflip} pndelta={pnd} bitflip={bf} accepted")]
       if authentic && ok && !(q.gen == g.phase || q.gen == g.phase - 1 || q.gen == g.phase + 1) then
         fails := fails ++ [("wrong_generation_rejected", "-", s!"gen={q.gen} phase={g.phase}")]
-      if authentic && q.gen == g.phase && qkp == g.phase % 2 && !ok then
-        fails := fails ++ [("current_generation_opens", "-", s!"gen={q.gen} pn={pn} result={implHead}")]
-      if authentic && q.gen == g.phase + 1 && qkp ≠ g.phase % 2 && !isOld && !tooQuick && !ok then
+      -- an untampered packet sealed with the receiver's CURRENT generation must open — whatever key-phase bit
+      -- the sender wrote (a wrong bit is the sender's defect, not a reason to lose the packet)
+      if authentic && decodable && q.gen == g.phase && !ok then
+        fails := fails ++ [("current_generation_opens", "-", s!"gen={q.gen} bit={qkp} pn={pn} packed={q.packed} result={implHead}")]
+      if q.packed && ok && (implInt impl "wbit=" qkp ≠ qkp || implInt impl "dpn=" pn ≠ pn) then
+        fails := fails ++ [("roundtrip_exact", "-", s!"packed bit={q.bit} pn={pn}: receiver read {impl}")]
+      if q.packed && ok && (implField impl "frames=").getD "ok" ≠ "ok" then
+        fails := fails ++ [("payload_is_frames", "-", s!"pn={pn}: the decrypted payload of a packed packet is not the frames the packer was given plus PADDING: {impl}")]
+      if authentic && decodable && q.gen == g.phase + 1 && qkp ≠ g.phase % 2 && !isOld && !tooQuick && !ok then
         fails := fails ++ [("next_generation_opens", "-", s!"gen={q.gen} pn={pn} result={implHead}")]
-      if authentic && q.gen == g.phase - 1 && qkp ≠ g.phase % 2 && isOld && !g.prevDropped && !ok then
+      if authentic && decodable && q.gen == g.phase - 1 && qkp ≠ g.phase % 2 && isOld && !g.prevDropped && !ok then
         fails := fails ++ [("previous_generation_opens_in_window", "-", s!"gen={q.gen} pn={pn} firstRcvd={g.firstRcvdInPhase} result={implHead}")]
       if authentic && q.gen == g.phase - 1 && ok && !isOld then
         fails := fails ++ [("reordering_rule", "-", s!"gen={q.gen} pn={pn} firstRcvd={g.firstRcvdInPhase}: old key used for a packet that is not older")]
       if implHead == "E:keyupdate" && !(authentic && q.gen == g.phase + 1 && tooQuick) then
         fails := fails ++ [("spurious_key_update_error", "-", s!"gen={q.gen} phase={g.phase}")]
-      if authentic && q.gen == g.phase + 1 && qkp ≠ g.phase % 2 && !isOld && tooQuick && implHead ≠ "E:keyupdate" then
+      if authentic && decodable && q.gen == g.phase + 1 && qkp ≠ g.phase % 2 && !isOld && tooQuick && implHead ≠ "E:keyupdate" then
         fails := fails ++ [("remote_update_too_quick_accepted", "-", s!"phase={g.phase} result={implHead}")]
       -- RFC 9001 §6.6: at the limit the failure must be reported as AEAD_LIMIT_REACHED
       let implIC := implInt impl "ic=" 0
@@ -228,6 +291,7 @@ def step (s : St) (op impl : String) : St × StepOut :=
       if implHead == "E:aeadlimit" && implIC < s.env.invalidPacketLimit then
         fails := fails ++ [("aead_limit_enforced", "-", s!"AEAD_LIMIT_REACHED at count {implIC} < limit {s.env.invalidPacketLimit}")]
       let mut g := g
+      if ok then g := { g with highRcvd := max g.highRcvd pn }
       if implPhase > g.phase then
         -- the implementation accepted a REMOTE key update
         if !(authentic && q.gen == g.phase + 1 && ok) then
@@ -245,8 +309,8 @@ def step (s : St) (op impl : String) : St × StepOut :=
           g := { g with firstRcvdInPhase := some pn, prevDropAt := if g.phase > 0 then some (t + s.env.pto3) else g.prevDropAt }
       let usedTag := match used with | .none => "none" | .prev => "prev" | .cur => "cur" | .next => "next"
       return ((s.setA ep a).setG ep g,
-       mk (fmtRes r ++ " " ++ fmtState a)
-         ([s!"open:{fmtRes r}:{usedTag}"] ++ (if a.keyPhase ≠ a0.keyPhase then ["open:remote-roll"] else []) ++
+       mk (fmtRes r ++ (if p.packed && r == .ok then s!" wbit={kp} dpn={mpn} frames=ok" else "") ++ " " ++ fmtState a)
+         ([s!"open:{fmtRes r}:{usedTag}"] ++ (if p.packed then [s!"open:packed:{fmtRes r}"] else []) ++ (if a.keyPhase ≠ a0.keyPhase then ["open:remote-roll"] else []) ++
                  (if (a0.dropExpired t).prevPresent ≠ a0.prevPresent then ["open:prev-dropped"] else []))
          fails)
     | _, _ => (s, { model := "skip" })
